@@ -402,8 +402,11 @@ func cliDiagnostics(meta *common.Meta, dir string, pkgs []*fw.Pkg, ems map[strin
 			args = append(args, "./checkers/testdata/"+p.Name)
 		}
 		out, code, err := common.Run(300*time.Second, dir, common.GoEnv(), filepath.Join(common.BinDir(), "go-critic"), args...)
-		if fw.IsTimeout(err) { // retried once with a longer limit; see fw.RunPatient
+		if fw.IsTimeout(err) || (err == nil && code == -1) { // retried once with a longer limit; see fw.RunPatient
 			out, code, err = common.Run(900*time.Second, dir, common.GoEnv(), filepath.Join(common.BinDir(), "go-critic"), args...)
+		}
+		if err == nil && code == -1 {
+			err = fmt.Errorf("killed by a signal (not by this harness): no observation")
 		}
 		if err == nil && code != 0 && code != 1 {
 			err = fmt.Errorf("exit %d: %s", code, clipStr(out, 300))
@@ -661,6 +664,13 @@ func Run(tier string, seed int64, outDir string) *common.Meta {
 	common.Must(err)
 	nS1 := len(base)
 	base = append(base, s2...)
+	// package-level initialisers carrying the examples' own code between the functions (fw.LoadLifted)
+	lifted, lerr := fw.LoadLifted(baseFset, outDir)
+	if lerr != nil || len(lifted) < 20 {
+		meta.TieBroken = append(meta.TieBroken, fmt.Sprintf("lifted-initialiser variants of the examples could not be derived/loaded (%d packages): %v", len(lifted), lerr))
+	}
+	base = append(base, lifted...)
+	meta.Distribution["lifted_initialiser_packages"] = len(lifted)
 	relDir := func(p *fw.Pkg) string {
 		if p.Stream == "S2" {
 			return filepath.Join("s2x", p.Name)
